@@ -398,6 +398,9 @@ def plan_c13():
             {"name": "C13.wrap.free", "flavour": "native", "args": ["wrap", "mode=free", "reps=%d" % T(tier, 4, 300), "nshards=4"], "shards": 4, "threads": 3, "timeout": 2400},
             {"name": "C13.wrap.free.asan", "flavour": "asan", "args": ["wrap", "mode=free", "alloc=real", "val=arc", "reps=%d" % T(tier, 2, 100), "nshards=4"], "shards": 4, "threads": 3, "timeout": 2400},
             core_token("C13.core.token", "c01", T(tier, 800, 40000)),
+            # three containers on the fallback-only strategy: writers of one container meet readers of another in every helping state
+            core_token("C13.core.token.fill", "c12", T(tier, 2500, 80000), strat="fill"),
+            core_free("C13.core.free.fill", "c12", T(tier, 5, 60), alloc="reuse", shards=2, extra=["strat=fill"]),
             life_job("C13.life.token", "token", execs=T(tier, 300, 15000)),
         ]
         for k in ([1] if tier == "quick" else [0, 1, 2, 5, 9, 16]):
